@@ -168,6 +168,33 @@ func HarnessC14Run(a []int) {
 		shutdown()
 		verifQuiesce()
 		verifAssert("C14.run.sends_return", sent == 2)
+	case 4: // a lost indication next to busy indications (before, after, inside the wait time): the
+		// repetitions still go out, exactly once, in the original order
+		sender(0, 1)
+		lostInd := &knxnet.RoutingLost{Count: 2 + uint16(nondetChoice(2))}
+		busy := func(ms int) *knxnet.RoutingBusy {
+			return &knxnet.RoutingBusy{WaitTime: time.Duration(ms) * time.Millisecond, Control: uint16(nondetChoice(2))}
+		}
+		switch nondetChoice(3) {
+		case 0:
+			in <- busy(30)
+			in <- lostInd
+		case 1:
+			in <- lostInd
+			in <- busy(30)
+		default:
+			in <- busy(10)
+			in <- busy(40)
+			in <- lostInd
+		}
+		in <- &knxnet.RoutingInd{Payload: x1}
+		in <- &knxnet.RoutingInd{Payload: x2}
+		verifSleep(int64(time.Second))
+		verifQuiesce()
+		ids, _ := routerSent()
+		verifAssert("C14.run.lost_next_to_busy", c14Equal(ids, []int{0, 1, 0, 1}))
+		shutdown()
+		verifQuiesce()
 	case 3: // Close while telegrams are parked; the reader arrives only afterwards: its range loop must end
 		in <- &knxnet.RoutingInd{Payload: x1}
 		in <- &knxnet.RoutingInd{Payload: x2}
